@@ -251,3 +251,41 @@ func (p *Prog) Actual(v ssa.Value) ssa.Value {
 	}
 	return v
 }
+
+// ActualsOf returns, for a parameter of a module function, the argument passed at every call
+// site the call graph knows (static calls, and dynamic calls through a function value that the
+// VTA graph resolves to this function). ok is false when some caller's argument cannot be
+// aligned with the parameter (method values, interface dispatch with bound receivers) or the
+// function has no known caller.
+func (p *Prog) ActualsOf(prm *ssa.Parameter) (vals []ssa.Value, ok bool) {
+	fn := prm.Parent()
+	pi := ParamIndex(prm)
+	if fn == nil || pi < 0 {
+		return nil, false
+	}
+	edges := p.CallersOf(fn)
+	if len(edges) == 0 {
+		return nil, false
+	}
+	for _, e := range edges {
+		cc := e.Site.Common()
+		args := cc.Args
+		switch {
+		case cc.IsInvoke():
+			// interface method: the receiver is cc.Value, parameters follow
+			if pi == 0 {
+				vals = append(vals, cc.Value)
+				continue
+			}
+			if pi-1 >= len(args) {
+				return nil, false
+			}
+			vals = append(vals, args[pi-1])
+		case len(args) == len(fn.Params):
+			vals = append(vals, args[pi])
+		default:
+			return nil, false
+		}
+	}
+	return vals, true
+}
